@@ -278,3 +278,37 @@ func VerifH_C06_tcpReuse() {
 	_ = aport
 	verifCover("done")
 }
+
+// VerifH_C06_tcpBurst: a burst of N valid replies from distinct hosts/ports while nobody takes the records
+// (the consumer keeps every record it was handed and looks only at the end): record i still carries
+// frame i's fields after all later frames were processed.  Concrete execution (N beyond any buffer size
+// of the result path: 1000-slot channels), the first host's last octet and the port base are solver-chosen.
+func VerifH_C06_tcpBurst() {
+	n := verifParam("N", 2100)
+	res := &c06Results{}
+	sm := NewScanMethod(SYNScanType, nil, res, WithPacketFlagsFunc(c06BitFlagsRef2))
+	base := ndU8("base")
+	for i := 0; i < n; i++ {
+		f := []byte{0x10, 0x11, 0x12, 0x13, 0x14, 0x15, 0x00, 0x0c, 0x29, 0x04, 0x05, 0x06, 0x08, 0x00,
+			0x45, 0, 0, 40, 0x12, 0x34, 0x40, 0, 64, 6, 0, 0,
+			10, byte(i >> 8), byte(i), base, 192, 168, 0, 3,
+			byte((i + 1) >> 8), byte(i + 1), 0x80, 0x00, 0, 0, 0, 1, 0, 0, 0, 2, 0x50, 0x12, 0xff, 0xff, 0, 0, 0, 0}
+		err := sm.ProcessPacketData(f[:len(f):len(f)], nil)
+		verifAssert(err == nil, "valid TCP reply refused")
+	}
+	verifAssert(len(res.got) == n, "not exactly one record per valid reply")
+	for i, x := range res.got {
+		r, ok := x.(*ScanResult)
+		if !ok || r == nil {
+			verifAssert(false, "record of another type")
+			continue
+		}
+		if i == 0 || i == 1 || i == n-1 || i == n-1001 || i == n-1000 || i == 999 || i == 1000 || i == 1001 || i%97 == 0 {
+			verifAssert(r.IP == net.IPv4(10, byte(i>>8), byte(i), base).String() && r.Port == uint16(i+1),
+				"a record queued behind later replies no longer carries its own frame's address and port")
+		}
+	}
+	verifCover("done")
+}
+
+func c06BitFlagsRef2(t *layers.TCP) string { return "sa" }
